@@ -41,7 +41,8 @@ type aval struct {
 	sym    string
 	dyn    *aval // boxed value for aIface
 	fields map[string]*aval
-	nonnil bool // pointer known to be non-nil
+	nonnil bool  // pointer known to be non-nil
+	pt     *aval // pointee (struct) of a pointer value, when known
 }
 
 func (a *aval) String() string {
@@ -78,6 +79,7 @@ type outcome struct {
 	ret     *ssa.Return
 	path    []*ssa.BasicBlock
 	calls   []string // calls executed along the path (canonical terms)
+	notes   []string
 	panics  bool
 	loop    bool // path abandoned because of a loop
 }
@@ -89,7 +91,9 @@ type interp struct {
 	depth    int
 	out      []outcome
 	// hook: evaluate a call symbolically; return nil for the default (opaque term)
-	callHook func(c *ssa.Call, args []*aval) *aval
+	callHook func(st *istate, c *ssa.Call, args []*aval) *aval
+	// hook: decide a binary operation on symbolic operands; nil for the default
+	binopHook func(st *istate, x *ssa.BinOp, a, b *aval) *aval
 }
 
 type istate struct {
@@ -97,6 +101,8 @@ type istate struct {
 	mem   map[ssa.Value]*aval // contents of local variables (whole-value)
 	path  []*ssa.BasicBlock
 	calls []string
+	notes []string // scratch area for hooks (copied on fork)
+	dead  bool     // a failing type assertion was executed: the path panics
 	count map[*ssa.BasicBlock]int
 }
 
@@ -113,6 +119,7 @@ func (s *istate) clone() *istate {
 	}
 	n.path = append([]*ssa.BasicBlock{}, s.path...)
 	n.calls = append([]string{}, s.calls...)
+	n.notes = append([]string{}, s.notes...)
 	return n
 }
 
@@ -207,7 +214,7 @@ func (in *interp) block(st *istate, b *ssa.BasicBlock, pred *ssa.BasicBlock) {
 			in.block(st, b.Succs[0], b)
 			return
 		case *ssa.Return:
-			o := outcome{ret: x, path: st.path, calls: st.calls}
+			o := outcome{ret: x, path: st.path, calls: st.calls, notes: st.notes}
 			for _, r := range x.Results {
 				o.results = append(o.results, in.get(st, r))
 			}
@@ -218,6 +225,10 @@ func (in *interp) block(st *istate, b *ssa.BasicBlock, pred *ssa.BasicBlock) {
 			return
 		default:
 			in.instr(st, ins)
+			if st.dead {
+				in.out = append(in.out, outcome{panics: true, path: st.path, calls: st.calls, notes: st.notes})
+				return
+			}
 		}
 	}
 }
@@ -263,7 +274,14 @@ func (in *interp) instr(st *istate, ins ssa.Instruction) {
 			st.env[x] = symv(x.Op.String()+v.String(), x.Type())
 		}
 	case *ssa.BinOp:
-		st.env[x] = in.binop(x, in.get(st, x.X), in.get(st, x.Y))
+		a, b := in.get(st, x.X), in.get(st, x.Y)
+		if in.binopHook != nil && (a.k == aSym || b.k == aSym) {
+			if r := in.binopHook(st, x, a, b); r != nil {
+				st.env[x] = r
+				return
+			}
+		}
+		st.env[x] = in.binop(x, a, b)
 	case *ssa.Field:
 		v := in.get(st, x.X)
 		_, name := fieldRef(x.X, x.Field)
@@ -279,6 +297,11 @@ func (in *interp) instr(st *istate, ins ssa.Instruction) {
 		_, name := fieldRef(x.X, x.Field)
 		a := symv("&"+v.String()+"."+name, x.Type())
 		a.nonnil = true
+		if v.pt != nil && v.pt.k == aStruct {
+			if f, ok := v.pt.fields[name]; ok {
+				st.mem[x] = f
+			}
+		}
 		// remember struct field constants for loads through the address
 		if v.k == aSym && strings.HasPrefix(v.sym, "&") {
 			if al, ok := x.X.(*ssa.Alloc); ok {
@@ -346,6 +369,7 @@ func (in *interp) instr(st *istate, ins ssa.Instruction) {
 		}
 		if known {
 			st.env[x] = symv("ASSERT-PANIC("+v.String()+".("+typeName(x.AssertedType)+"))", x.AssertedType)
+			st.dead = true
 			return
 		}
 		st.env[x] = symv(v.String()+".("+typeName(x.AssertedType)+")", x.AssertedType)
@@ -465,7 +489,7 @@ func (in *interp) call(st *istate, c *ssa.Call) {
 		name = in.get(st, cc.Value).String()
 	}
 	if in.callHook != nil {
-		if r := in.callHook(c, args); r != nil {
+		if r := in.callHook(st, c, args); r != nil {
 			st.env[c] = r
 			return
 		}
